@@ -12,7 +12,11 @@ known deltas: their timetags are also compared with the INDEPENDENT
 expectation int((L + start + sum(deltas)) * 2**32) + offset (exact on
 SystemClock, 1e-9 s on TempoClock), with equal / past start times, a slow task
 and a thread holding the main lock so that several tasks with different
-scheduled times are due in one wake-up cycle.  Sends from the main thread (quiet,
+scheduled times are due in one wake-up cycle.  A quarter of all sends (routines
+and main thread) go through `with server.bind():` blocks of never-booted
+Server objects with server.latency in {0, 0.0, -0.0, 0.2, 0.05, None, -1}: the
+bundle sent on exit must carry logical time + latency (exactly 0 is NOT
+immediately).  Sends from the main thread (quiet,
 holding the main lock, and unlocked while clocks run) are checked against the
 closed interval [call time, return time].  Half of the rounds forward the
 datagrams to the library's own UDP port: OscFunc callbacks must receive
@@ -70,6 +74,8 @@ MIN_COUNTERS = {
     'rt_timetags_compared': 400,
     'rt_timetags_compared/nested-bundle': 40,
     'rt_timetags_compared/completion-bundle': 20,
+    'rt_timetags_compared/server-bind': 60,
+    'rt_server_bind_zero_latency_compared': 30,
     'rt_timetags_distinguishing_logical_from_physical': 200,
     'rt_sends_late_over_1ms': 50,
     'rt_routine_sends/SystemClock': 50,
